@@ -596,17 +596,17 @@ async fn run_account(world: &mut World, acc: &mut Acc, rng: &mut Rng, id: u64, a
                         } else {
                             format!("c31/{}-password-shorter-than-policy-minimum", path.name())
                         };
-                        acc.violation(&sig, json!({"case": case, "explanation": format!("request accepted and password stored although it has {g} graphemes / {b} bytes and the account's effective minimum is {}", eff.min)}));
+                        crate::sim::violation(acc, &sig, json!({"case": case, "explanation": format!("request accepted and password stored although it has {g} graphemes / {b} bytes and the account's effective minimum is {}", eff.min)}));
                     }
                 }
                 if g > eff.max {
-                    acc.violation(
+                    crate::sim::violation(acc, 
                         &format!("c31/{}-password-longer-than-maximum", path.name()),
                         json!({"case": case, "explanation": format!("request accepted although the password has {g} graphemes and the maximum is {}", eff.max)}),
                     );
                 }
                 if listed {
-                    acc.violation(
+                    crate::sim::violation(acc, 
                         &format!("c31/{}-badlisted-password-stored", path.name()),
                         json!({"case": case, "explanation": "request accepted although the lower-cased password is in the stored badlist"}),
                     );
@@ -637,7 +637,7 @@ async fn run_account(world: &mut World, acc: &mut Acc, rng: &mut Rng, id: u64, a
                 }
                 // refused => nothing stored
                 if prim_after != prim_before || unix_after != unix_before {
-                    acc.violation(
+                    crate::sim::violation(acc, 
                         &format!("c31/{}-refused-but-credential-changed", path.name()),
                         json!({"case": case, "explanation": "request returned an error but the stored credential attributes differ from before"}),
                     );
@@ -653,7 +653,7 @@ async fn run_account(world: &mut World, acc: &mut Acc, rng: &mut Rng, id: u64, a
                 if p == Some(true) && u == Some(true) {
                     acc.count("err.old_passwords_still_verify");
                 } else {
-                    acc.violation(
+                    crate::sim::violation(acc, 
                         &format!("c31/{}-refused-but-credential-changed", path.name()),
                         json!({"case": case, "explanation": format!("after the refused request the previous passwords no longer verify (primary {p:?}, unix {u:?})")}),
                     );
@@ -679,7 +679,7 @@ pub fn run(args: Args) {
     run.assume("recover_account(name, Some(password)) is only reachable from the integration-test bootstrap of the server binary; it is driven and counted but not judged");
     run.assume("for set_unix_account_password only passwords too short in bytes and in graphemes are judged (the code documents bytes there)");
     let thorough = args.tier == kvcore::Tier::Thorough;
-    let accounts_per_worker: u64 = if thorough { 800 } else { 60 };
+    let accounts_per_worker: u64 = if thorough { 500 } else { 40 };
     let attempts = 8usize;
     let seed = args.seed;
     run.parallel(args.workers, |w, _n| {
